@@ -152,6 +152,10 @@ func checkC17(c *Check) {
 	}
 	c.Cond(def, p.FuncKey(rn)+":charset-default", p.FuncPos(rn), "empty Charset defaults to utf-8", "the charset no longer defaults to utf-8")
 
+	// ---- R4 what a render method writes reaches the client
+	c.Rule("R4", "shared with C13 (R1, R4)", "the writer the render methods use forwards every body byte (non-HEAD) and sends the status it is given: no status-dependent filtering between render and the client", 6)
+	c.Share("C13", []string{"R1", "R4"}, 6)
+
 	// ---- R3 per-request availability
 	c.Rule("R3", "E3 provenance", "Renderer's handler maps a fresh render (configured options, the request's own ResponseWriter) as Render on the request context", 1)
 	okMap := false
